@@ -303,6 +303,8 @@ def run(tier="quick", seed=1, work=None, replay=None, focus="C01", ncases=None):
                 moved_dir_history(rep, contents, ci, seed, work, rng)
             if caps.get("hardlink") and focus == "C05" and ci % 20 == 3:
                 link_group_failure_twin(rep, contents, ci, seed, work, rng)
+            if focus == "C06" and ci % 30 == 9:
+                stale_dir_named_like_working_file(rep, contents, ci, seed, work, rng)
             if focus == "C07" and ci % 2 == 0:
                 src, dst, flags, cfg, env, excl, cls = gen_c07_case(rng); rep.tag("c07." + cls)
             elif focus in ("C01", "C06", "C16") and ci % 25 == 11:
@@ -578,6 +580,42 @@ def link_group_failure_twin(rep, contents, ci, seed, work, rng):
     elif s1 != sn:
         ch = sorted(r for r in set(s1) | set(sn) if s1.get(r) != sn.get(r))
         rep.oracle_fail("C05/result-depends-on-j", f"destination after -j{j1} and after -j{jn} differ at {ch[:4]}", desc)
+
+def stale_dir_named_like_working_file(rep, contents, ci, seed, work, rng):
+    """C06 ("removing a stale directory together with its contents completes without spurious errors … extras whose names look like sy
+    working files; all worker counts"): stale destination DIRECTORIES <f>.sy.tmp/ with contents, next to files f that the same run
+    updates through the block-delta route.  Once the directory task has removed the tree, the update may create its working file under
+    that very name; the delete tasks of the children then meet ENOTDIR instead of ENOENT (found by seed sweep 11, case 103; repo fix
+    recorded as fixed: C06/spurious-delete-errors/parent-name-reused)."""
+    case_dir = os.path.join(work, f"sdw{ci}"); src_root, dst_root = os.path.join(case_dir, "src"), os.path.join(case_dir, "dst")
+    t = BASE_T * 10**9; src, dst = {}, {}
+    nf = rng.range(4, 8)
+    for i in range(nf):
+        d = rng.bytes(2048) * 32; j = rng.range(100, len(d) - 1)
+        src[f"f{i}"] = F(d, t + 90 * 10**9); dst[f"f{i}"] = F(d[:j] + bytes([d[j] ^ 0xFF]) + d[j + 1:], t)
+        base = f"f{i}.sy.tmp"; dst[base] = D()
+        for a in range(rng.range(2, 5)):
+            dst[f"{base}/d{a}"] = D()
+            for b in range(rng.range(3, 9)): dst[f"{base}/d{a}/x{b}"] = F(rng.bytes(rng.range(0, 20)), t)
+        dst[f"{base}/leaf"] = F(b"leaf", t)
+    materialize(src_root, src, {}); materialize(dst_root, dst, {})
+    flags = ["--delete", "--force-delete", "-j", str(rng.pick([4, 8, 16]))]
+    env = {"SY_VERIF_DELTA_THRESHOLD": "4096", "SY_VERIF_BLOCK_SIZE": "256"}
+    rc, out, err = run_sy([src_root, dst_root, "--json"] + flags, case_dir, env_extra=env)
+    ev, bad = events_of(out)
+    errs = sorted(os.path.relpath(e["path"], dst_root) for e in ev if e.get("type") == "error" and e.get("path"))
+    post = snapshot(dst_root, contents)
+    desc = {"case": ci, "seed": seed, "flags": flags, "env": env, "rc": rc, "stderr": (err or "")[-300:],
+            "scenario": f"{nf} files f<i> (64 KiB, one changed byte) + stale directories f<i>.sy.tmp/ with nested contents in the destination"}
+    rep.tag("c06.stale-dir-named-like-working-file"); rep.case(("sdw", nf, tuple(flags)), True)
+    below = [r for r in errs if ".sy.tmp/" in r or r.endswith(".sy.tmp")]
+    if below:
+        rep.oracle_fail("C06/spurious-delete-errors/parent-name-reused", f"exit {rc}: {len(below)} error records for stale entries that are gone with their directory: {below[:3]} ({(err or '').strip().splitlines()[:1]})", desc)
+    if [r for r in errs if r not in below]: rep.tag("c06.sdw.update-failed-while-stale-dir-held-the-working-name")
+    if rc == 0:
+        extra = sorted(set(post) - set(src)); wrong = sorted(r for r in src if (post.get(r) or {}).get("cid") != contents.id(src[r]["data"]))
+        if extra or wrong: rep.oracle_fail("C06/not-a-mirror", f"after --delete: extra {extra[:3]} wrong {wrong[:3]}", desc)
+    shutil.rmtree(case_dir, ignore_errors=True)
 
 def broken_link_history(rep, contents, ci, seed, work, rng):
     """O-only history (found by the C02/C17 histories): two source names of one inode are synced with -H, then the
